@@ -25,6 +25,7 @@ func checkC08(c *Ctx) {
 
 	c.Rule("C08/R11", "extractors keep no state between results: no closure built by the extractor constructors writes memory it captured (a remembered 'last name' aliases the reader's reused line buffer, so a later benchmark gets an earlier one's key)")
 	c.Rule("C08/R12", "the name is returned unchanged only when nothing is to be left out: every path on which the excluding .fullname extractor returns the full name as it is has established that either GOMAXPROCS is not excluded or the name carries no '-' (the -N suffix has no '/', so a test for '/' alone cannot stand in for it)")
+	c.Rule("C08/R15", "values enter keys verbatim: every argument of Projection.intern in the projection functions is an extractor's result or a configuration entry's Value, never a function of it")
 	c.Rule("C08/R14", "exclusions only grow: nothing deletes from the parser's set of claimed configuration keys or stores anything but true into it, and the list of claimed name keys is only ever appended to")
 	c.Rule("C08/R13", "every projection starts from an empty row: before the projection functions run, the whole row buffer is reset (a loop storing \"\" into every element, or clear), so a field no function assigns for this result reads as missing rather than as the previous result's value")
 	c.Rule("C08/R10", "trimmed values are read with care: only the reviewed accessors (Key.Get, Key.string, keyNode.equalRow) index a key's stored values, everything else reads through Key.Get; where a walk over fields meets a field beyond the stored values it skips that field and continues")
@@ -58,6 +59,7 @@ func checkC08(c *Ctx) {
 	c08Untransformed(c, p)
 	c08RowReset(c, p)
 	c08ExclusionsGrow(c, p)
+	c08Verbatim(c, p)
 	closuresKeepNoState(c, p, "C08/R11", ctors, 2, "an extractor writes memory it captured (at %s): whatever it remembers of one result — the name it last saw is a view into the reader's reused line buffer — is stale or overwritten when the next result arrives, so a different benchmark can be given the previous one's key")
 }
 
@@ -1048,8 +1050,19 @@ func c08RowReset(c *Ctx, p *Prog) {
 				}
 				for _, lp := range naturalLoops(fn) {
 					if lp.Blocks[b] && !lp.Blocks[run.Block()] && lp.Header.Dominates(run.Block()) {
-						// over the whole row: the index is the loop's own counter from the start
-						reset = true
+						// over the whole row: the loop's counter runs up to the length of the row buffer itself (not
+						// of a prefix of it)
+						if ifi, ok := lp.Header.Instrs[len(lp.Header.Instrs)-1].(*ssa.If); ok {
+							if cmp, ok := ifi.Cond.(*ssa.BinOp); ok && cmp.Op == token.LSS {
+								if lc, ok := cmp.Y.(*ssa.Call); ok {
+									if bi, ok := lc.Call.Value.(*ssa.Builtin); ok && bi.Name() == "len" {
+										if f, _ := loadOfField(lc.Call.Args[0]); f == rowF {
+											reset = true
+										}
+									}
+								}
+							}
+						}
 					}
 				}
 			}
@@ -1317,4 +1330,73 @@ func c08ExclusionsGrow(c *Ctx, p *Prog) {
 		})
 	}
 	c.Floor(R, "writes to the parser's exclusion sets", n, 2)
+}
+
+// c08Verbatim (C08/R15): a key's value for a field is the value the field's extractor (or the configuration entry)
+// holds, byte for byte: in the projection functions made by makeProjection every argument of Projection.intern is the
+// result of a dynamic call (an extractor) or the Value field of a configuration entry — never the result of a library
+// or package function applied to it (trimming, case folding, normalising).
+func c08Verbatim(c *Ctx, p *Prog) {
+	const R = "C08/R15"
+	mp := p.Method("benchproc", "ProjectionParser", "makeProjection")
+	intern := p.Method("benchproc", "Projection", "intern")
+	if mp == nil || intern == nil {
+		c.Undecided(R, "anchor:makeProjection/intern", "", "not found")
+		return
+	}
+	n := 0
+	var visit func(fn *ssa.Function)
+	visit = func(fn *ssa.Function) {
+		eachInstr(fn, func(_ *ssa.BasicBlock, in ssa.Instruction) {
+			call, ok := in.(*ssa.Call)
+			if !ok || call.Call.StaticCallee() != intern {
+				return
+			}
+			n++
+			arg := callArgs(&call.Call)[1]
+			var okArg func(v ssa.Value, d int) bool
+			okArg = func(v ssa.Value, d int) bool {
+				if d > 4 {
+					return false
+				}
+				v = stripConv(v)
+				switch x := v.(type) {
+				case *ssa.Call:
+					return x.Call.StaticCallee() == nil && !x.Call.IsInvoke() && func() bool { _, b := x.Call.Value.(*ssa.Builtin); return !b }()
+				case *ssa.Phi:
+					for _, e := range x.Edges {
+						if !okArg(e, d+1) {
+							return false
+						}
+					}
+					return true
+				case *ssa.UnOp:
+					if f, _ := loadOfField(x); f != nil && f.Name() == "Value" {
+						return true
+					}
+					// a captured local holding the extractor's result
+					if al, ok := x.X.(*ssa.Alloc); ok && x.Op == token.MUL {
+						for _, st := range storesInto(al) {
+							if !okArg(st.Val, d+1) {
+								return false
+							}
+						}
+						return true
+					}
+				case *ssa.Field:
+					if f, _ := fieldOfVal(x); f != nil && f.Name() == "Value" {
+						return true
+					}
+				}
+				return false
+			}
+			c.Check(okArg(arg, 0), R, fmt.Sprintf("%s:interned-verbatim#%d", fnName(fn), n), p.pos(call.Pos()), "the value interned is the extractor's result or the configuration entry's Value itself",
+				"the value put into the key is not the extracted value itself but something computed from it: configurations that differ only in what the computation removes (surrounding white space) become one key under .config and the residue, although projecting the same key by name still tells them apart, and Get returns a value that was never in the result")
+		})
+		for _, a := range fn.AnonFuncs {
+			visit(a)
+		}
+	}
+	visit(mp)
+	c.Floor(R, "values interned by the projection functions", n, 3)
 }
